@@ -396,7 +396,9 @@ def backlog_at_goodbye(chk):
     from minecraft.networking.packets import clientbound as cb, serverbound as sb
     for pv in (47, 340, 757):
         ids = proto.Ids(pv)
-        for thr, backlog in ((None, 320), (64, 320), (None, 299), (None, 301), (None, 650)):
+        # (suppress: an early outgoing listener of the application vetoes every 7th line with IgnorePacket - among them the first;
+        # a vetoed packet is skipped, everything queued behind it is still written)
+        for thr, backlog, suppress in ((None, 320, 0), (64, 320, 0), (None, 299, 0), (None, 301, 0), (None, 650, 0), (None, 20, 7), (64, 40, 7), (None, 320, 7)):
             pre = [proto.frame(ids.set_compression, proto.varint(thr))] if thr is not None else []
             frames = pre + [proto.frame(ids.login_success, ids.b_login_success(), thr), proto.frame(ids.keep_alive, ids.b_keep_alive(77), thr),
                             proto.frame(ids.play_disconnect, proto.string('{"text":"bye"}'), thr)]
@@ -413,24 +415,32 @@ def backlog_at_goodbye(chk):
                             c.message = 'line %d' % k
                             conn.write_packet(c)
                 conn.register_packet_listener(flood, cb.play.KeepAlivePacket, early=True)
+                if suppress:
+                    from minecraft.networking.connection import IgnorePacket
+
+                    def veto(p):
+                        if int(p.message.split()[1]) % suppress == 0:
+                            raise IgnorePacket()
+                    conn.register_packet_listener(veto, sb.play.ChatPacket, outgoing=True, early=True)
                 conn.connect()
                 net.run_threads(conn)
             finally:
                 net.uninstall()
-            chk.count('backlog-at-goodbye', [pv, thr, backlog], True)
+            chk.count('backlog-at-goodbye', [pv, thr, backlog, suppress], True)
             what = None
             try:
                 fr = proto.parse_frames(b''.join(net.servers[0].sends), thr_at=2 if thr is not None else None)[2:]
                 chat_id = sb.play.ChatPacket.get_id(ids.ctx)
                 chats = sum(1 for pid, _b in fr if pid == chat_id)
                 answers = [a[1] for a in decode_answers(ids, [f for f in fr if f[0] != chat_id])]
-                if chats != backlog or answers != [77] or exits != [1] or excs:
-                    what = '%d of %d queued lines on the wire, keep-alive answers %s (expected [77]), exit callbacks %d, errors %s' % (chats, backlog, answers, len(exits), [exn_name(e) for e in excs])
+                want = backlog - (len(range(0, backlog, suppress)) if suppress else 0)
+                if chats != want or answers != [77] or exits != [1] or excs:
+                    what = '%d of %d queued (and not vetoed) lines on the wire, keep-alive answers %s (expected [77]), exit callbacks %d, errors %s' % (chats, want, answers, len(exits), [exn_name(e) for e in excs])
             except Exception as e:
                 what = 'what the server received is unparseable (%s)' % exn_name(e)
             if what:
-                chk.violation('backlog-at-goodbye', 'backlog-at-goodbye:%d:%s:%d' % (pv, thr, backlog), {'case': {'proto': pv, 'threshold': thr, 'queued_lines': backlog}, 'observed': what},
-                              'protocol %d threshold %s, %d lines queued when the server disconnects: %s' % (pv, thr, backlog, what))
+                chk.violation('backlog-at-goodbye', 'backlog-at-goodbye:%d:%s:%d:%d' % (pv, thr, backlog, suppress), {'case': {'proto': pv, 'threshold': thr, 'queued_lines': backlog, 'every_nth_line_vetoed_by_outgoing_listener': suppress}, 'observed': what},
+                              'protocol %d threshold %s, %d lines queued%s when the server disconnects: %s' % (pv, thr, backlog, ' (every %dth vetoed by an early outgoing listener)' % suppress if suppress else '', what))
 
 
 def shutdown_fault(chk):
